@@ -92,6 +92,11 @@ def enqueue (s : St) (a : Act) : St × List Cmd :=
   | .wrAdd wr trigs => (s, [.register trigs (s.wrSys wr) .persistent])
   | .wrRemove wr trigs => (s, [.revoke (s.wrSys wr) trigs])
   | .wrRun wr => (s, [.run (s.wrSys wr)])
+  | .mutNoReact e ty v =>
+    match alookup (s.comp e) ty with
+    | some _ => ({ s with comp := upd s.comp e (aset (s.comp e) ty v) }, [])
+    | none => (s, [])
+  | .resNoReact ty v => ({ s with res := upd s.res ty v }, [])
 
 /-! ### applying one command -/
 
